@@ -5,7 +5,7 @@ CONSTANTS
  Gg = 2
  Vars = {"two", "n", "opt"}
  Ns = {2, 3}
- MsgVecs <- MV23
+ MsgVecs <- MV23s
  CCoins <- C2e
  SCoins <- C1a
  Tamper = TRUE
